@@ -136,6 +136,7 @@ func replay(run *hx.Run) {
 		enumerate(run, plan(run)[0]) // keeps the correspondence part of the check non-empty
 	case rf.Input.FailWrite != nil:
 		faultOne(run, *rf.Input.Scenario, *rf.Input.FailWrite)
+		enumerate(run, plan(run)[0]) // keeps the correspondence part of the check non-empty
 	default:
 		enumerate(run, *rf.Input.Scenario)
 	}
@@ -538,6 +539,28 @@ func judgeFault(run *hx.Run, b *Built, base Image, res *ChildResult, refHead int
 	if win == "" {
 		sig = fmt.Sprintf("unclassified-fault:%s:%s:write%d", v.Class, sc.Name, res.FailAt)
 	}
+	// one precise shape (known finding `failed-reexecution-keeps-block-without-receipts`): the failed write is the
+	// block/receipt batch of WriteBlockWithState for a block that an earlier WriteBlockWithoutState had already stored
+	// (header and body by single puts, no receipts), and exactly that block is the canonical block without receipts
+	if v.Class == "canonical-receipts-missing" && res.FailedAt != nil && v.Node > 0 {
+		x := b.Tree.Nodes[v.Node].Block.Hash()
+		failedIsBatchOfX, storedStatelessBefore := false, false
+		for _, w := range res.FailedAt.Ws {
+			if ki := parseKey(w.Key); ki.Class == KReceipts && ki.Hash == x {
+				failedIsBatchOfX = true
+			}
+		}
+		for i := range applied {
+			if applied[i].Kind == 'p' {
+				if ki := parseKey(applied[i].Ws[0].Key); ki.Class == KHeader && ki.Hash == x {
+					storedStatelessBefore = true
+				}
+			}
+		}
+		if failedIsBatchOfX && storedStatelessBefore {
+			sig = "failed-reexecution-of-stateless-block:canonical-receipts-missing"
+		}
+	}
 	report(run, "crash-prefix", sig, input, fmt.Sprintf("%s: after failing write #%d (%s; child exit %d) the reopened view: %s: %s", sc.Name, res.FailAt, what, res.Exit, v.Class, v.Detail))
 	run.Count("fault-bad:" + sig)
 }
@@ -614,6 +637,36 @@ func trieFaultRuns(run *hx.Run) {
 			run.Count("trie-commit-flushes-closed")
 		}
 	}
+	// the memory layer before the commit, for the Lean model (growth 4): every node of the first commit with its references
+	nid := map[common.Hash]int{}
+	id := func(h common.Hash) int {
+		if _, ok := nid[h]; !ok {
+			nid[h] = len(nid) + 1
+		}
+		return nid[h]
+	}
+	var memToks []string
+	seenNode := map[common.Hash]bool{}
+	rootID, firstCommit := 0, true
+	for _, r := range ref.Records {
+		if r.Kind == 'o' {
+			firstCommit = false
+		}
+		if r.Kind != 'b' || !firstCommit {
+			continue
+		}
+		for _, w := range r.Ws {
+			if ki := parseKey(w.Key); ki.Class == KNode && !seenNode[ki.Hash] {
+				seenNode[ki.Hash] = true
+				var cs []int
+				for _, c := range nodeChildren(w.Val) {
+					cs = append(cs, id(c))
+				}
+				memToks = append(memToks, fmt.Sprintf("n%d:%s", id(ki.Hash), dots(cs)))
+				rootID = id(ki.Hash) // post-order: the root is the last put
+			}
+		}
+	}
 	nw = (nw + 1) / 2 // the probe commits twice
 	run.Hist["trie-commit-writes"] = nw
 	results := make([]ChildResult, nw)
@@ -631,6 +684,43 @@ func trieFaultRuns(run *hx.Run) {
 				fmt.Sprintf("trie.Database.Commit: batch write #%d (%s) fails -> Commit returns the error, the next Lock on the trie database never returns", i, first))
 		} else if res.Exit == exitDone {
 			run.Count("trie-fault:live:" + first)
+			// correspondence with the model of the memory layer: puts on disk before the failure, puts of the retry
+			k, afterF := 0, false
+			second := map[common.Hash]bool{}
+			onDisk := map[common.Hash]bool{}
+			closed := 1
+			var all []W
+			for _, r := range res.Records {
+				if r.Kind == 'F' {
+					afterF = true
+				}
+				if r.Kind != 'b' {
+					continue
+				}
+				for _, w := range r.Ws {
+					if ki := parseKey(w.Key); ki.Class == KNode {
+						if afterF {
+							second[ki.Hash] = true
+						} else {
+							k++
+						}
+						onDisk[ki.Hash] = true
+						all = append(all, w)
+					}
+				}
+			}
+			for _, w := range all {
+				for _, c := range nodeChildren(w.Val) {
+					if !onDisk[c] {
+						closed = 0
+					}
+				}
+			}
+			if afterF && len(memToks) > 0 {
+				run.Case(fmt.Sprintf("triemem %d 64 %d | %s", rootID, k, strings.Join(memToks, " ")),
+					fmt.Sprintf("closed=%d second=%d fuelok=1", closed, len(second)))
+				run.Count("trie-mem-model-case")
+			}
 		} else {
 			run.Violate("harness-fault", fmt.Sprintf("trie-child-exit%d", res.Exit), i, "trie fault child failed")
 		}
